@@ -11,8 +11,8 @@
         no result was returned early from the cache
      7. histories: cache_transparent; no re-execution of resident entries; the map path *)
 From Coq Require Import Permutation.
-From Verif Require Import Base.Prelude Base.StrOrd Base.Graph Model.Pipe Model.CacheSem Proofs.GraphFacts
-  Proofs.CacheSemBase.
+From Verif Require Import Base.Prelude Base.StrOrd Base.Graph Model.Pipe Model.CacheSem Model.CacheSemSpec
+  Proofs.GraphFacts Proofs.CacheSemBase.
 
 Section Facts.
   Variable body : str -> alist -> result str.
@@ -254,13 +254,8 @@ Section Facts.
     (* every resident entry is the raw result of its function: for a call key, in the evaluation whose keywords are
        the key's root values (DESIGN: `(o, rootvals) |-> v  satisfies  v = eval p rootvals o`); for a map key, of the
        user function on those keyword arguments *)
-    Definition entry_ok (k : ckey) (v : str) : Prop :=
-      match k with
-      | KCall o rv => exists f, In f p /\ outs f = o /\ exists m, eval_raw body pick m p rv f = Ok v
-      | KMap o kwargs => exists f kws, In f p /\ outs f = o /\ NoDup (akeys kws) /\ sort_by_key kws = kwargs
-                                       /\ body (fname f) (call_args f kws) = Ok v
-      end.
-    Definition cache_inv (c : C) : Prop := good c /\ forall k v, lookup P c k = Some v -> entry_ok k v.
+    Notation entry_ok := (entry_ok body pick p).
+    Notation cache_inv := (cache_inv body pick P good p).
 
     Lemma cache_inv_get c k : cache_inv c -> cache_inv (snd (cget P c k)).
     Proof.
@@ -1026,13 +1021,6 @@ Section Facts.
         - intros n v H. now left.
       Qed.
 
-      Definition outcome_eq (a b : outcome) : Prop :=
-        match a, b with
-        | Value v, Value w => v = w
-        | Full d, Full e => forall n, aget d n = aget e n
-        | _, _ => False
-        end.
-
       (* whatever happens in a call, the cache still satisfies cache_inv *)
       Lemma crun_cache_inv use c o r lg c' : cache_inv c ->
         crun body pick P false use p c o kw full = (r, lg, c') -> cache_inv c'.
@@ -1160,15 +1148,7 @@ Section Facts.
   End OnPipeline.
 
   (* ---------------------------------------------------------------- 7b. histories *)
-  Definition step_transparent (u c : sobs) : Prop :=
-    match u, c with
-    | OCall ru _, OCall rc _ => forall out_u, ru = Ok out_u -> exists out_c, rc = Ok out_c /\ outcome_eq out_u out_c
-    | OMut a, OMut b => a = b
-    | _, _ => False
-    end.
-
-  (* every pipeline the history goes through is accepted by construction-time validation (wf_pipeline) and its
-     root_args cover what the outputs read (roots_okb) *)
+  Notation cache_inv := (cache_inv body pick P good).
   Definition hist_good (p : pipeline) (h : list step) : Prop :=
     forall q, In q (hist_pipelines p h) -> wf_pipeline q /\ roots_okb q = true.
 
@@ -1222,3 +1202,48 @@ Section Facts.
       + pose proof (mutate_err_same _ _ _ _ Em) as E. cbn in E. subst p'. now apply IH.
   Qed.
 End Facts.
+
+(* ---------------------------------------------------------------- 10. the statements of Props/C09.v *)
+Lemma hist_goodb_good p h : hist_goodb p h = true -> hist_good p h.
+Proof.
+  unfold hist_goodb, hist_good. rewrite forallb_forall. intros H q Hq. specialize (H q Hq).
+  apply andb_true_iff in H as [H1 H2]. now split.
+Qed.
+
+Lemma empty_cache_inv body pick {C} (P : policy C) good p c : empty_cache P good c -> cache_inv body pick P good p c.
+Proof. intros [Hg He]. split; [exact Hg|]. intros k v H. rewrite He in H. discriminate. Qed.
+
+Theorem cache_transparent body pick {C} (P : policy C) good : lawful P good ->
+  forall p h c0, hist_goodb p h = true -> empty_cache P good c0 ->
+  Forall2 step_transparent (exec_hist body pick P false false p c0 h) (exec_hist body pick P false true p c0 h).
+Proof.
+  intros LAW p h c0 Hg He. apply (cache_transparent_inv body pick P good LAW); [now apply hist_goodb_good | |];
+    now apply empty_cache_inv.
+Qed.
+
+Lemma simple_empty : empty_cache simple_policy (fun _ => True) [].
+Proof. split; [exact I | reflexivity]. Qed.
+
+Lemma lru_empty_ok n : empty_cache lru_policy (fun c => nodupk (ldict c)) (lru_empty n).
+Proof. split; [constructor | reflexivity]. Qed.
+
+Lemma simple_never_evicts : never_evicts simple_policy.
+Proof.
+  intros c k k' v H. cbn in *. split; [|exact H].
+  destruct (ckey_eqb k k') eqn:E.
+  - apply ckey_eqb_eq in E. subst. now rewrite sfind_sset_same.
+  - apply ckey_eqb_neq in E. now rewrite (sfind_sset_other c k' v k E).
+Qed.
+
+(* the boolean used in the refutations is implied by transparency *)
+Lemma step_transparentb_complete u c : step_transparent u c -> step_transparentb u c = true.
+Proof.
+  destruct u as [ru lu|a], c as [rc lc|b]; cbn; try contradiction; try reflexivity.
+  destruct ru as [[v|d]|e]; [| |reflexivity]; intros H; destruct (H _ eq_refl) as [out_c [-> Ho]];
+    destruct out_c as [w|d']; cbn in Ho; try contradiction; [subst; apply str_eqb_refl | reflexivity].
+Qed.
+
+Lemma all_transparentb_complete u c : Forall2 step_transparent u c -> all_transparentb u c = true.
+Proof.
+  induction 1 as [|a b u c Hab _ IH]; [reflexivity|]. cbn. now rewrite (step_transparentb_complete a b Hab), IH.
+Qed.
